@@ -59,6 +59,36 @@ def run(ck: Check) -> None:
                          {"request": r.case.op + " " + proto.enc(case.args[0])[:1500], "authorized": case.args[1], "threshold": case.meta["thr"],
                           "mode": case.tag, "oracle_count": case.meta["count"], "entry_states": case.meta["states"]},
                          "unsound:" + case.tag)
+    # directed: signature maps holding N entries that never count (strangers' well-formed entries, junk indexes, malformed values) next to fewer valid
+    # authorized signatures than the threshold asks for, N on the boundaries where "too many to report" logic would switch: never accepted
+    from .. import mined
+    import hashlib as _h
+    crowded = []
+    for N in sorted(set([19, 20, 21, 22, 33, 64, 65, 129, 257, 1025] + [x for x in mined.near_ints() if 2 <= x <= 3000])):
+        for gpg in (False, True):
+            ks = [gen.key(1), gen.key(2)]
+            signed = {"crowded": N}
+            data = gen.oracle_bytes(signed)
+            env = gen.envelope(signed)
+            for j in range(N):
+                kind = j % 3
+                if kind == 0:
+                    env["signatures"][_h.sha256(b"stranger%d" % j).hexdigest()] = ({"signature": "00" * 64} if not gpg else {"other_headers": "04001608", "signature": "00" * 64})
+                elif kind == 1:
+                    env["signatures"]["junk-%d" % j] = "x"
+                else:
+                    env["signatures"][_h.sha256(b"malformed%d" % j).hexdigest()] = {"signature": "zz"}
+            gen.sign_env(env, ks[:1], gpg, ck.rng)                  # one valid authorized signer ...
+            case = Case("vsignable", [env, [k.hex for k in ks], 2, gpg], tag="gpg" if gpg else "raw", group=500000 + N,          # ... of the two required
+                        meta={"states": {"crowded": N}, "count": 1, "thr": "2"})
+            crowded.append(case)
+    for r in ck.run_cases(crowded, "corr:verify_signable/outcome-class"):
+        ck.oracle_checks += 1
+        ck.count("crowded-map-unmet-threshold")
+        if r.impl != "E SignatureError":
+            ck.violation("accepted without threshold-many valid authorized signers" if r.impl == "OK" else "an unmet threshold was not reported as a signature error",
+                         {"ignored_entries": r.case.meta["states"]["crowded"], "valid_authorized_signers": 1, "threshold": 2, "mode": r.case.tag, "impl": r.impl},
+                         ("unsound:" if r.impl == "OK" else "class:") + r.case.tag + ":crowded")
     # entry by entry: the class the model's loop body assigns to every entry of every envelope (driver op `vclass`, Model/Auth.lean `entryClass`; theorem
     # entryClass_counts_iff) against the independent oracle's per-key verdict — a finer comparison than the call's verdict, and a record of which branches
     # of the model the run exercised
